@@ -657,6 +657,18 @@ def gen_res():
     scenario("res-14", "res", doc(css0, body), files=files,
              expect=dict(exp0, sentinels=W + ["o%03d" % i for i in range(0, 13)], fault_words=dict({"odd.svg": ["alt1", "alt2", "sv03"]}, **{"par%d.svg" % i: ["pa%02d" % i] for i in range(8)})))
 
+    # 16: @import inside an SVG <style>: chain, diamond, cycle and self import (fetched by the SVG code through
+    # utils.DefaultUrlFetcher, i.e. over the simulated http transport)
+    svgimp = ('<svg xmlns="http://www.w3.org/2000/svg" width="40" height="30"><style>@import url(si-a.css); @import "si-self.css"; rect { fill: blue }</style><rect class="a b" width="20" height="10"/></svg>')
+    files = {
+        "si-a.css": ('@import "si-b.css";\n.a { stroke: red }\n', dict(mime="text/css", kind="css")),
+        "si-b.css": ('@import "si-a.css";\n@import url(si-c.css);\n.b { stroke-width: 2 }\n', dict(mime="text/css", kind="css")),
+        "si-c.css": ('.c { opacity: 0.5 }\n', dict(mime="text/css", kind="css")),
+        "si-self.css": ('@import "si-self.css";\n.s { fill: green }\n', dict(mime="text/css", kind="css")),
+        "img.svg": (svgimp, dict(mime="image/svg+xml", kind="svg")),
+    }
+    scenario("res-16", "res", doc(css0, '<p>%s <img src="img.svg" alt="alt1"></p>' % svgimp + text), files=files, expect=dict(exp0, cyclic=True, fault_words={"img.svg": ["alt1"]}))
+
     # 13: underlined links with both engines (text decoration path), pre / tabs / rtl text
     css = css0 + "a { text-decoration: underline }\n.o { text-decoration: overline line-through }\npre { font-family: ahem; margin: 0 }\n"
     body = '<p><a href="http://example.org/">u001 u002</a> <span class=o>u003</span></p><pre>q001\tq002\nq003</pre>' + text
